@@ -36,6 +36,20 @@ def twisted_deferred_context(chk, prefix):
             and any(isinstance(a, ast.Starred) for a in rets[0].value.args)
         if not okg:
             problems.append("%s does not return self._action.run(<callback>, *args, **kwargs)" % g.name)
+    # what is handed to the Deferred is always one of those wrappers
+    hand = [n for n in iter_own_nodes(acb.node) if isinstance(n, ast.Call) and isinstance(n.func, ast.Attribute) and n.func.attr == "addCallbacks" and common.is_self_attr(n.func.value, "result")]
+    if len(hand) != 1:
+        problems.append("the pair is not registered with exactly one self.result.addCallbacks(...) call")
+    else:
+        wrappers = {g.name for g in nested}
+        for a in hand[0].args[:2]:
+            if not (isinstance(a, ast.Name) and a.id in wrappers):
+                problems.append("self.result.addCallbacks is given %s, not a wrapper that runs the callback in the action" % unparse(a)[:40])
+            elif [x for x in stores_to_name(acb, a.id) if not isinstance(x, (ast.FunctionDef, ast.AsyncFunctionDef))]:
+                vals = [unparse(v)[:30] if v is not None else "?" for v in assigned_values(acb, a.id)]
+                problems.append("%s is also bound to %s on some path: the callback is then registered unwrapped and runs in whatever context fires (or resumes) the Deferred" % (a.id, vals))
+        if len(hand[0].args) < 2:
+            problems.append("callback and errback are not passed positionally to self.result.addCallbacks (not modelled)")
     chk.req(len(nested) == 2 and not problems, "%s.integration" % prefix, "twisted.DeferredContext.addCallbacks:callbacks-run-in-the-action", chk.where(acb),
             good="callback and errback are wrapped in self._action.run(...) and their result returned", fail="; ".join(problems) or "expected two wrappers")
     aaf = dc.find_method("addActionFinish")
